@@ -21,6 +21,8 @@ RULES = {
              'last_op_time reads the time field of the last whole record',
     'C12.b': 'ReplicateOpp::to_u8 and From<u8> are inverse on every variant',
     'C12.c': 'the query reads the live file and every rotated file; rotation renames; only the declutter clean-up removes rotated files',
+    'C12.f': 'the clean-up of rotated files removes the OLDEST ones: the part of the listing it removes (suffix / prefix) agrees with '
+             'the order the listing function sorts in (newest first / oldest first), counting reversals',
     'C12.e': 'the appender answers Ok only from a successful append: an Ok result is built only where the Ok edge of a call to the '
              'record writer dominates (after a rotation the record is appended again to the fresh file, so the live file is never '
              'left empty on a non-empty log and last_op_time stays the newest timestamp)',
@@ -29,6 +31,11 @@ RULES = {
 
 
 def run(ck, m):
+    _run(ck, m)
+    cleanup_rule(ck, m)
+
+
+def _run(ck, m):
     for k, v in RULES.items():
         ck.rule(k, v)
     P = m.prog
@@ -372,3 +379,48 @@ def int_to_enum(P, b):
                         if s['k'] == 'assign' and not s['l'].get('p') and s['l']['l'] == 0 and s['r']['k'] == 'agg':
                             out[int(v)] = s['r'].get('variant')
     return out
+
+
+
+def listing_newest_first(P):
+    """orientation of get_op_log_entries_by_creation_date's comparator: True when it sorts newest first (b.cmp(a)), False when
+    oldest first, None when not recognised"""
+    srt = [b for b in P.user_bodies() if 'entries_by_creation_date::{closure' in b.id]
+    newest_first = None
+    for sb in srt:
+        for bi, t in sb.calls():
+            if callee_decl(t) == 'std::cmp::Ord::cmp':
+                calls, params = slice_calls(sb, t['args'][0])
+                newest_first = 3 in params and 2 not in params
+    return newest_first
+
+
+def cleanup_rule(ck, m):
+    P = m.prog
+    rod = [b for b in P.user_bodies() if b.id.endswith('remove_old_db_files') and '{closure' not in b.id]
+    if len(rod) != 1:
+        ck.undecided('C12.f', 'clean-up', 'anchor', 'oplog clean-up function not found')
+        return
+    b = rod[0]
+    nf = listing_newest_first(P)
+    flips = sum(1 for bi, t in b.calls() if callee_decl(t) in ('std::slice::reverse', 'std::iter::Iterator::rev', 'std::iter::DoubleEndedIterator::rev'))
+    if nf is not None and flips % 2 == 1:
+        nf = not nf
+    part = None
+    for bi, t in b.calls():
+        da = t['f'].get('dargs', '')
+        if callee_decl(t) in ('std::ops::Index::index', 'std::ops::IndexMut::index_mut', 'std::slice::get'):
+            if 'RangeFrom<' in da:
+                part = 'suffix'
+            elif 'RangeTo<' in da or 'RangeToInclusive<' in da:
+                part = 'prefix'
+        elif callee_decl(t) in ('std::iter::Iterator::skip', 'std::vec::Vec::split_off', 'std::vec::Vec::drain') and part is None:
+            part = 'suffix' if callee_decl(t) != 'std::vec::Vec::drain' or 'RangeFrom<' in da else ('prefix' if 'RangeTo<' in da else None)
+        elif callee_decl(t) == 'std::iter::Iterator::take' and part is None:
+            part = 'prefix'
+    ok = nf is not None and part is not None and ((part == 'suffix') == nf)
+    ck.ob('C12.f', short(b.id), 'removes-the-oldest', ok,
+          'the listing is %s and the clean-up removes its %s: the oldest rotated files go' % ('newest first' if nf else 'oldest first', part) if ok else
+          'the listing is sorted %s but the clean-up removes its %s: the NEWEST rotated files are deleted, the operations in them are never '
+          'sent by an incremental resync' % ({True: 'newest first', False: 'oldest first', None: 'in an unrecognised order'}[nf], part),
+          '%s:%s' % (b.file, b.line))
